@@ -788,7 +788,7 @@ func runReqRetain(c *mon.Case, sp spec) {
 	rig.SetAll(mangos.OptionRetryTime, 15*time.Millisecond)
 	want := rig.ReqBody(1, 1)
 	want = append(want, body(77, 3000)...)
-	k := mon.Go("Send", func() (interface{}, error) { return nil, rig.Ctxs[1].Send(want) })
+	k := mon.Go("Send", func() (interface{}, error) { return nil, rig.Ctxs[1].Send(append([]byte{}, want...)) })
 	if !c.AwaitOrViolate("owner/req-send-stuck", "REQ Send", k.Done, mon.AwaitOpts{MaxTimer: 15 * time.Millisecond}) {
 		return
 	}
